@@ -5,6 +5,7 @@
 //!   pqsim worker|replay-inner|shrink ...    internal
 
 mod alloc;
+mod autotrait;
 mod complexity;
 mod crash;
 mod diffhint;
@@ -108,6 +109,23 @@ fn main() {
             let top = q.peek(queue::End::Max);
             println!("L {} done peek={:?}", sc, top);
             0
+        }
+        // auxiliary static probe: Send / Sync of the public types (see autotrait.rs)
+        Some("autotraits") => {
+            let facts = autotrait::facts();
+            let bad = autotrait::mismatches();
+            println!("AUTOTRAITS facts={} mismatches={}", facts.len(), bad.len());
+            for m in &bad {
+                println!("MISMATCH {}", m);
+            }
+            for m in autotrait::restrictive() {
+                println!("NOTE {}", m);
+            }
+            if bad.is_empty() {
+                0
+            } else {
+                1
+            }
         }
         Some("amplify") if args.len() >= 2 => hist::amplify_main(&args[1]),
         Some("selftest") => orch::selftest_determinism(&|p| engines::engine_of(p), args.get(2).and_then(|s| s.parse().ok()).unwrap_or(1200)),
